@@ -1,12 +1,14 @@
 #!/bin/bash
-# usage: tools/seeded_matrix.sh [id...]   (default: every directory under /verif/seeded)
+# usage: tools/seeded_matrix.sh [-w] [id...]   (default: every directory under /verif/seeded)
 # Runs the quick check of the property each seeded change targets (plus the extra properties
-# listed in its meta.json "also") and prints one line per (change, property).
+# listed in its meta.json "also") and prints one line per (change, property). With -w the
+# outcome is also written into meta.json (checks_run).
 cd /verif
+write=0; [ "${1:-}" = "-w" ] && { write=1; shift; }
 ids="$@"; [ -z "$ids" ] && ids=$(ls seeded)
 for id in $ids; do
   props=$(python3 -c "
-import json,sys
+import json
 try:
   m=json.load(open('seeded/$id/meta.json')); print(' '.join([m['property']]+m.get('also',[])))
 except Exception: print('$id'.split('-')[0])")
@@ -15,5 +17,11 @@ except Exception: print('$id'.split('-')[0])")
     rc=$(echo "$out" | sed -n 's/^mutest: exit=//p')
     cls=$(echo "$out" | sed -n 's/^vcheck: violation oracle=\([^ ]*\) class=\(.*\) site=\([^ ]*\).*/\1\/\2/p' | sort -u | head -4 | tr '\n' ';')
     echo "$id $p exit=$rc $cls"
+    if [ $write = 1 ]; then python3 - "$id" "$p" "exit=$rc $cls" <<'PY'
+import json,sys
+f='/verif/seeded/%s/meta.json'%sys.argv[1]
+m=json.load(open(f)); m.setdefault('checks_run',{})[sys.argv[2]]=sys.argv[3]; json.dump(m,open(f,'w'),indent=1)
+PY
+    fi
   done
 done
